@@ -219,7 +219,7 @@ def run(ctx):
     if ctx.quick:
         cases.sort(key=lambda k: (sorted(k["c"]["lay"]), k["c"]["fl"], k["c"]["nk"], k["c"]["unknown"], k["c"]["ignored"],
                                   k["c"]["detritus"], k["c"]["dry"]))
-        cases = ctx.rng.sample(cases, min(len(cases), 5000))
+        cases = ctx.rng.sample(cases, min(len(cases), 4000))
     core.fork_map(ctx, _replay, cases)
     rows = ctx.collected
     if len(rows) != len(cases):
